@@ -38,6 +38,7 @@ import (
 	"github.com/meshplus/bitxhub/pkg/order/etcdraft"
 	raftproto "github.com/meshplus/bitxhub/pkg/order/etcdraft/proto"
 	"github.com/meshplus/bitxhub/pkg/order/solo"
+	"github.com/meshplus/bitxhub/pkg/order/syncer"
 	"github.com/meshplus/bitxhub/verifharness/hx"
 	"github.com/sirupsen/logrus"
 )
@@ -822,12 +823,132 @@ func runSolo(h History) Trace {
 	return tr
 }
 
+// ---------------------------------------------------------------------------------- sync driver
+
+// SyncHistory: the real StateSyncer (exported constructor) over a peer manager that answers
+// GET_BLOCKS honestly (blocks Start..End, no transactions) except for the request ordinals listed
+// in Faults, which fail.  Output: every request the peers saw, the heights pushed to the consumer.
+type SyncHistory struct {
+	Kind   string   `json:"kind"`
+	Fetch  uint64   `json:"fetch"`
+	Begin  uint64   `json:"begin"`
+	End    uint64   `json:"end"`
+	Peers  uint64   `json:"peers"`
+	Faults []uint64 `json:"faults"`
+}
+
+type SyncTrace struct {
+	Reqs [][4]uint64 `json:"reqs"` // start end peer ok
+	Emit []uint64    `json:"emit"`
+	Err  bool        `json:"err"`
+	Hang bool        `json:"hang"`
+}
+
+type syncPM struct {
+	stubPM
+	mu     sync.Mutex
+	n      uint64
+	faults map[uint64]bool
+	reqs   [][4]uint64
+}
+
+func (p *syncPM) Send(to peer_mgr.KeyType, m *pb.Message) (*pb.Message, error) {
+	id, _ := to.(uint64)
+	req := &pb.GetBlocksRequest{}
+	if m.Type != pb.Message_GET_BLOCKS || req.Unmarshal(m.Data) != nil {
+		return nil, fmt.Errorf("unexpected message")
+	}
+	p.mu.Lock()
+	p.n++
+	bad := p.faults[p.n]
+	ok := uint64(1)
+	if bad {
+		ok = 0
+	}
+	p.reqs = append(p.reqs, [4]uint64{req.Start, req.End, id, ok})
+	p.mu.Unlock()
+	if bad {
+		return nil, fmt.Errorf("scripted send failure")
+	}
+	resp := &pb.GetBlocksResponse{}
+	for h := req.Start; ; h++ {
+		resp.Blocks = append(resp.Blocks, &pb.Block{BlockHeader: &pb.BlockHeader{Number: h}, BlockHash: &types.Hash{}, Transactions: &pb.Transactions{}})
+		if h == req.End || len(resp.Blocks) > 100000 {
+			break
+		}
+	}
+	d, err := resp.Marshal()
+	if err != nil {
+		return nil, err
+	}
+	return &pb.Message{Type: pb.Message_GET_BLOCKS_ACK, Data: d}, nil
+}
+
+func runSync(line []byte) SyncTrace {
+	var h SyncHistory
+	tr := SyncTrace{Reqs: [][4]uint64{}, Emit: []uint64{}}
+	if err := json.Unmarshal(line, &h); err != nil {
+		tr.Err = true
+		return tr
+	}
+	pm := &syncPM{faults: map[uint64]bool{}}
+	for _, f := range h.Faults {
+		pm.faults[f] = true
+	}
+	ids := []uint64{}
+	for i := uint64(0); i < h.Peers; i++ {
+		ids = append(ids, i+2)
+	}
+	s, err := syncer.New(h.Fetch, pm, 1, ids, quiet())
+	if err != nil {
+		tr.Err = true
+		return tr
+	}
+	ch := make(chan *pb.Block, 1024)
+	errc := make(chan error, 1)
+	go func() { errc <- s.SyncCFTBlocks(h.Begin, h.End, ch) }()
+	deadline := time.After(5 * time.Second)
+	for {
+		select {
+		case b := <-ch:
+			if b == nil {
+				if e := <-errc; e != nil {
+					tr.Err = true
+				}
+				pm.mu.Lock()
+				tr.Reqs = append(tr.Reqs, pm.reqs...)
+				pm.mu.Unlock()
+				return tr
+			}
+			tr.Emit = append(tr.Emit, b.BlockHeader.Number)
+		case e := <-errc:
+			if e != nil {
+				tr.Err = true
+				pm.mu.Lock()
+				tr.Reqs = append(tr.Reqs, pm.reqs...)
+				pm.mu.Unlock()
+				return tr
+			}
+			errc <- nil
+		case <-deadline:
+			tr.Hang = true
+			pm.mu.Lock()
+			tr.Reqs = append(tr.Reqs, pm.reqs...)
+			pm.mu.Unlock()
+			return tr
+		}
+	}
+}
+
 // ---------------------------------------------------------------------------------- main
 
 func runOne(line []byte) (interface{}, error) {
 	var h History
 	if err := json.Unmarshal(line, &h); err != nil {
 		return nil, err
+	}
+	if h.Kind == "sync" {
+		return runSync(line), nil
 	}
 	switch h.Kind {
 	case "raft":
